@@ -645,7 +645,7 @@ impl<'a> GeneratorState<'a> {
                                             }
                                             let signed = self.asm(
                                                 LDA,
-                                                &ExprType::Absolute(var, false, -l * 256),
+                                                &ExprType::Absolute(var, false, l.wrapping_neg().wrapping_mul(256)),
                                                 pos,
                                                 true,
                                             )?;
